@@ -869,6 +869,13 @@ def mutate(rng, d):
         bad = {'unbound_var': ('var', 'nope'), 'unbound_var_ctx': ('var', 'nope'), 'unknown_builtin': ('builtin', 'nope'),
                'diff_non_class': ('diff', ('char', 97), rng.choice([('str', [97, 98]), ('star', ('char', 97)),
                                                                    ('cat', ('char', 97), ('char', 98)), ('eoi',)]))}[kind]
+        # the offending leaf also as an operand of `#` in every position: right operand of a chain whose left part is
+        # already the empty class, left operand, operand of a nested `#`, under `|` inside an operand
+        if rng.random() < 0.4:
+            leaf = bad[2] if kind == 'diff_non_class' else bad
+            empty = ('diff', ('set', [(97, 99)]), ('set', [(97, 122)]))
+            bad = rng.choice([('diff', empty, leaf), ('diff', leaf, ('char', 97)), ('diff', ('any',), ('diff', ('char', 97), leaf)),
+                              ('diff', ('or', ('char', 97), leaf), ('char', 98)), ('diff', ('set', [(97, 122)]), ('or', leaf, ('char', 97)))])
         if kind == 'unbound_var_ctx':
             r['ctx'] = wrap(r['ctx'], bad) if r['ctx'] else bad
         else:
